@@ -23,7 +23,9 @@ EXPONENTS = [1, 0.5, 0.25, -0.5, -0.25, 1.5, 2.25, 0, 2, -1.75]
 class Gen:
     def __init__(self, tape, *, max_qudits=4, allow_qudits=True, clifford_only=False,
                  allow_measure=True, allow_control=True, allow_channels=False, allow_reset=True,
-                 allow_pauli_measure=True, keyed_channels=True, max_ops=10, leaf_bits_cap=8.0):
+                 allow_pauli_measure=True, keyed_channels=True, max_ops=10, leaf_bits_cap=8.0,
+                 allow_subcircuits=False):
+        self.allow_subcircuits = allow_subcircuits and allow_measure
         self.t = tape
         self.clifford_only = clifford_only
         self.allow_measure = allow_measure
@@ -219,15 +221,17 @@ class Gen:
         base = self.single() if self.t.chance(2, 3, "c-1q?") else self.double()
         if base is None:
             return None
-        kind = self.t.weighted([4, 2, 2, 2 if all(d == 2 for d in dims) else 0], "cond-kind")
+        has_path = ":" in key
+        mkey = cirq.MeasurementKey.parse_serialized(key)
+        kind = self.t.weighted([4, 2, 0 if has_path else 2, 2 if all(d == 2 for d in dims) else 0], "cond-kind")
         maxval = int(np.prod(dims))
         if kind == 0:
-            cond = cirq.KeyCondition(cirq.MeasurementKey(key))
+            cond = cirq.KeyCondition(mkey)
         elif kind == 1:
             idx = self.t.draw(self.key_instances[key], "cond-index")
             if self.t.chance(1, 2, "neg-index?"):
                 idx = idx - self.key_instances[key]
-            cond = cirq.KeyCondition(cirq.MeasurementKey(key), index=idx)
+            cond = cirq.KeyCondition(mkey, index=idx)
             self.features.add("indexed-condition")
         elif kind == 2:
             sym = sympy.Symbol(key)
@@ -237,11 +241,92 @@ class Gen:
         else:
             tv = self.t.draw(maxval, "bm-target")
             bm = self.t.draw(maxval, "bm-mask") if self.t.chance(1, 2, "bm-mask?") else None
-            cond = cirq.BitMaskKeyCondition(key, index=-1, target_value=tv, equal_target=bool(self.t.draw(2, "bm-eq")),
+            cond = cirq.BitMaskKeyCondition(mkey, index=-1, target_value=tv, equal_target=bool(self.t.draw(2, "bm-eq")),
                                             bitmask=bm)
             self.features.add("bitmask-condition")
         self.features.add("classical-control")
         return base.with_classical_controls(cond)
+
+    def subcircuit(self) -> Optional[cirq.Operation]:
+        """A CircuitOperation around a tiny sub-circuit (unitaries and measurements), with tape-drawn
+        repetitions, qubit map, measurement-key map and repetition ids.  The keys it records under are
+        computed here from the documented meaning of those arguments."""
+        qs2 = self.qubits_only()
+        if not qs2:
+            return None
+        k = 1 + self.t.draw(min(2, len(qs2)), "sub-width")
+        inner = [cirq.NamedQubit(f"s{i}") for i in range(k)]
+        outer = self._pick_distinct(qs2, k, "sub-q")
+        ops = []
+        local_keys = {}
+        n_sub = 1 + self.t.draw(3, "sub-ops")
+        bits = 0.0
+        for _ in range(n_sub):
+            kind = self.t.weighted([3, 2, 3, 2], "sub-kind")
+            q = inner[self.t.draw(k, "sub-qi")]
+            if kind == 0:
+                ops.append(cirq.ry(math.pi / 8 * self._pick(EIGHTHS, "angle")).on(q) if not self.clifford_only
+                           else self._pick([cirq.H, cirq.S, cirq.X], "sub-cl").on(q))
+            elif kind == 1 and k == 2:
+                ops.append(cirq.CNOT(inner[0], inner[1]))
+            elif kind == 2:
+                lk = self._pick(["u", "v"], "sub-key")
+                if lk in local_keys:
+                    continue
+                local_keys[lk] = (2,)
+                inv = (bool(self.t.draw(2, "invert")),) if self.t.chance(1, 3, "invert?") else ()
+                ops.append(cirq.measure(q, key=lk, invert_mask=inv))
+                bits += 1
+            else:
+                lk = self._pick(["u", "v"], "sub-key")
+                if lk in local_keys:
+                    continue
+                local_keys[lk] = (2,)
+                pa = [self._pick([cirq.X, cirq.Y, cirq.Z], "pauli") for _ in range(k)]
+                obs = cirq.DensePauliString(pa, coefficient=-1 if self.t.chance(1, 2, "neg-obs?") else 1)
+                ops.append(cirq.PauliMeasurementGate(obs, key=lk).on(*inner))
+                bits += 1
+                self.features.add("pauli-measure")
+        if not ops:
+            return None
+        reps = 1 + self.t.draw(2, "sub-reps")
+        # repetition ids only make a difference (and are only well defined) for two or more repetitions
+        use_ids = reps >= 2 and self.t.chance(1, 2, "sub-rep-ids?")
+        kmap = {}
+        for lk in local_keys:
+            if self.t.chance(1, 2, "sub-keymap?"):
+                kmap[lk] = self._pick(["m", "n", "a", "b"], "sub-mapped")
+        if len(set(kmap.get(lk, lk) for lk in local_keys)) != len(local_keys):
+            return None
+        # resulting outer key names and instance counts
+        planned = {}
+        for i in range(reps):
+            for lk, dims in local_keys.items():
+                name = kmap.get(lk, lk)
+                if use_ids:
+                    name = f"{i}:{name}"
+                planned[name] = (dims, planned.get(name, (dims, 0))[1] + 1)
+        for name, (dims, _cnt) in planned.items():
+            if name in self.key_dims and self.key_dims[name] != dims:
+                return None
+            if name in self.channel_keys:
+                return None
+        if self.leaf_bits + bits * reps > self.cap:
+            return None
+        self.leaf_bits += bits * reps
+        for name, (dims, cnt) in planned.items():
+            if name in self.key_dims:
+                self.features.add("repeated-key")
+            self.key_dims[name] = dims
+            self.key_instances[name] = self.key_instances.get(name, 0) + cnt
+        self.features.add("subcircuit")
+        if kmap:
+            self.features.add("subcircuit-key-map")
+        if use_ids:
+            self.features.add("subcircuit-rep-ids")
+        return cirq.CircuitOperation(
+            cirq.FrozenCircuit(ops), repetitions=reps, qubit_map=dict(zip(inner, outer)),
+            measurement_key_map=kmap, use_repetition_ids=use_ids)
 
     def reset(self) -> Optional[cirq.Operation]:
         q = self._pick(self.qudits, "q")
@@ -336,9 +421,11 @@ class Gen:
                    3 if self.allow_control else 0,
                    1 if (self.allow_reset and not self.clifford_only) else 0,
                    1 if (self.allow_pauli_measure and self.allow_measure) else 0,
-                   4 if self.allow_channels else 0]
-        makers = [self.single, self.double, self.measure, self.controlled, self.reset, self.pauli_measure, self.channel]
-        names = ["1q", "2q", "measure", "controlled", "reset", "pauli-measure", "channel"]
+                   4 if self.allow_channels else 0,
+                   2 if self.allow_subcircuits else 0]
+        makers = [self.single, self.double, self.measure, self.controlled, self.reset, self.pauli_measure, self.channel,
+                  self.subcircuit]
+        names = ["1q", "2q", "measure", "controlled", "reset", "pauli-measure", "channel", "subcircuit"]
         for _ in range(n_ops):
             k = self.t.weighted(weights, "op-kind")
             op = makers[k]()
